@@ -155,12 +155,18 @@ def concatE {α : Type} : List (Except Err (List α)) → Except Err (List α)
   | [] => .ok []
   | x :: xs => do let a ← x; let b ← concatE xs; pure (a ++ b)
 
+/-- `for k in range(nqubit): q_r = qubit_layout[k]; circ.bitflip(k, tm[q_r], rout[q_r])` -/
+def flipCall (layout : List Nat) (k : Nat) : Except Err (List CircCall) :=
+  match layout[k]? with
+  | some q => .ok [CircCall.bitflip k [.tm q, .rout q]]
+  | none => .error .index
+
+def flipCalls (nqubit : Nat) (layout : List Nat) : Except Err (List CircCall) :=
+  concatE ((List.range nqubit).map (flipCall layout))
+
 def callsBinary (nqubit : Nat) (layout : List Nat) (data : List Op) : Except Err (List CircCall) := do
   let body ← concatE (data.map (callsBinaryOp layout))
-  let flips ← concatE ((List.range nqubit).map fun k =>
-    match layout[k]? with
-    | some q => .ok [CircCall.bitflip k [.tm q, .rout q]]
-    | none => .error .index)
+  let flips ← flipCalls nqubit layout
   pure (body ++ flips)
 
 /-- the per-qubit loop `for k in range(nqubit): if k == q: ... else: circ.I(k)` of the layered branch -/
